@@ -179,11 +179,12 @@ def run_de(rng, obs):
     kind, rule = strat[:-3], strat[-3:]
     NP = max(rng.choice([4, 6, 9, 15]), NEEDS[kind] + 1 + (1 if kind != 'Best1' else 0), dim)
     NP = max(NP, NEEDS[kind] + 1)
-    CR = rng.choice([0.0, 0.1, 0.5, 0.9, 1.0]); F = rng.choice([0.3, 0.8, 1.2])
+    CR = rng.choice([0.0, 0.0, 0.1, 0.5, 0.9, 1.0]); F = rng.choice([0.0, 0.3, 0.8, 0.8, 1.2])
+    sticky = rng.random() < 0.4          # settings given with the first Step only: they are documented to persist
     spec = K.gen_cost(rng, dim, ['sphere', 'illquad', 'rosen', 'abs', 'step'])
     raw = K.make_cost(spec)
     gens = rng.randint(3, 12)
-    obs.desc = {'solver': which, 'strategy': strat, 'dim': dim, 'NP': NP, 'CR': CR, 'F': F, 'cost': spec, 'generations': gens}
+    obs.desc = {'solver': which, 'strategy': strat, 'dim': dim, 'NP': NP, 'CR': CR, 'F': F, 'cost': spec, 'generations': gens, 'sticky': sticky}
     probe = K.CostProbe(raw)
     s = (DifferentialEvolutionSolver if which == 'de' else DifferentialEvolutionSolver2)(dim, NP)
     NP = s.nPop
@@ -205,6 +206,7 @@ def run_de(rng, obs):
     tap.__name__ = strat
     old_random = ST.random
     ST.random = proxy
+    setattr(ST, strat, tap)      # sticky settings remember the strategy by name and look it up in mystic.strategy
     mixed = False
     try:
         s.Step(strategy=tap, CrossProbability=CR, ScalingFactor=F)           # generation 0: evaluates the initial population
@@ -213,7 +215,8 @@ def run_de(rng, obs):
             ene0 = [K.fnum(e) for e in s.popEnergy]
             n0 = probe.n
             del trials[:]
-            s.Step(strategy=tap, CrossProbability=CR, ScalingFactor=F)
+            if sticky: s.Step()
+            else: s.Step(strategy=tap, CrossProbability=CR, ScalingFactor=F)
             calls = probe.calls[n0:]
             obs.check(len(trials) == NP and len(calls) == NP, 'de:one trial and one evaluation per member and generation', trials=len(trials), calls=len(calls), **obs.desc)
             if len(trials) != NP or len(calls) != NP:
@@ -227,6 +230,10 @@ def run_de(rng, obs):
                     obs.check(False, 'de:random draws follow the strategy protocol', draws=[x[0] for x in d], strategy=strat); continue
                 r, n = d[0][1], d[1][1]
                 us = [x[1] for x in d[2:]]
+                # the oracle uses the CONFIGURED crossover probability and scale; what the strategy saw must be those
+                obs.check(tr['F'] == F and tr['CR'] == CR, 'de:the strategy runs with the configured CrossProbability and ScalingFactor', configured=[CR, F],
+                          seen=[tr['CR'], tr['F']], sticky=sticky, strategy=strat, solver=which)
+                tr = dict(tr, F=F, CR=CR)
                 cand, parent = tr['cand'], tr['pop'][tr['cand']]
                 obs.check(len(r) == NEEDS[kind] and len(set(r)) == len(r) and cand not in r and all(0 <= i < NP for i in r),
                           'de:the random members are distinct, in range and differ from the target', r=r, candidate=cand, NP=NP, strategy=strat)
@@ -262,6 +269,7 @@ def run_de(rng, obs):
             obs.check(K.fnum(s.bestEnergy) == be, 'select:best energy is the population minimum', bestE=K.fnum(s.bestEnergy), min_pop=be)
     finally:
         ST.random = old_random
+        setattr(ST, strat, real)
     obs.nontrivial = mixed
     obs.notes = {'cost_calls': probe.n}
 
